@@ -12,6 +12,7 @@ keywords DX/DY/DZ/TOPS, DXV/DYV/DZV/DEPTHZ, COORD/ZCORN, ACTNUM, NNC, MAPAXES, E
 * COORD: per pillar (j slow, i fast) top point and bottom point; ZCORN: per layer the top plane
   then the bottom plane, each plane 2*ny lines of 2*nx corner depths.
 """
+import io
 import math
 import os
 import struct
@@ -43,36 +44,37 @@ def _fixed(strategy, n):
 
 @st.composite
 def case_strategy(draw, tier):
-    kind = draw(st.sampled_from(["bc", "bc", "cp", "cp", "cp"]))
+    kind = draw(st.sampled_from(["cp", "bc", "cp", "bc", "cp"]))
     nx = draw(st.integers(1, 7))
     ny = draw(st.integers(1, 7))
     nz = draw(st.integers(1, 7))
     n = nx * ny * nz
     case = {
         "kind": kind, "nx": nx, "ny": ny, "nz": nz,
-        "units": draw(st.sampled_from(["METRIC", "METRIC", "FIELD", "FIELD", "LAB", "LAB", "PVT-M"])),
+        "units": draw(st.sampled_from(["FIELD", "METRIC", "LAB", "FIELD", "METRIC", "LAB", "PVT-M"])),
         "scale": draw(st.sampled_from(SCALES)),
         "dx": draw(_fixed(st.integers(1, 400), nx)),
         "dy": draw(_fixed(st.integers(1, 400), ny)),
         "top0": draw(st.integers(0, 8000)),
     }
     if kind == "bc":
-        top = draw(st.sampled_from(["TOPS1", "TOPS1", "TOPSN", "DEPTHZ"]))
+        top = draw(st.sampled_from(["TOPS1", "DEPTHZ", "TOPSN", "TOPS1"]))
         case["top"] = top
         if top == "DEPTHZ":
             case["xform"] = case["yform"] = case["zform"] = "V"
         else:
-            case["xform"] = draw(st.sampled_from(["V", "D", "D1"]))
-            case["yform"] = draw(st.sampled_from(["V", "D", "D1"]))
-            case["zform"] = draw(st.sampled_from(["V", "D", "D"]))
+            case["xform"] = draw(st.sampled_from(["D", "V", "D1"]))
+            case["yform"] = draw(st.sampled_from(["D1", "V", "D"]))
+            case["zform"] = draw(st.sampled_from(["D", "V", "D"]))
         case["dz_base"] = draw(st.lists(st.integers(1, 200), min_size=1, max_size=6))
         case["dz_mix"] = [draw(st.integers(0, 5)), draw(st.integers(0, 5)), draw(st.integers(1, 5))]
         case["top_base"] = draw(st.lists(st.integers(0, 400), min_size=1, max_size=6))
         case["top_mix"] = [draw(st.integers(0, 5)), draw(st.integers(0, 5))]
         case["gaps"] = draw(_fixed(st.sampled_from([0, 0, 0, 1, 8, 40]), max(nz - 1, 0)))
     else:
-        if draw(st.booleans()):
-            case["shear"] = [draw(st.integers(-12, 12)), draw(st.integers(-12, 12))]     # sixteenths
+        if draw(st.sampled_from([True, False])):
+            nz_int = st.integers(1, 12).flatmap(lambda v: st.sampled_from([v, -v]))
+            case["shear"] = [draw(st.one_of(nz_int, st.just(0))), draw(nz_int)]     # sixteenths
         else:
             case["shear"] = [0, 0]
         layers = []
@@ -84,16 +86,17 @@ def case_strategy(draw, tier):
         case["layers"] = layers
         case["surf0"] = [draw(st.integers(-300, 300)), draw(st.integers(-300, 300))]
         case["gaps"] = draw(_fixed(st.sampled_from([0, 0, 0, 1, 8, 40]), max(nz - 1, 0)))
-        if draw(st.booleans()):
-            case["fault_base"] = draw(st.lists(st.integers(0, 300), min_size=1, max_size=5))
-            case["fault_mix"] = [draw(st.integers(0, 5)), draw(st.integers(0, 5))]
+        if draw(st.sampled_from([True, True, False])):
+            case["fault_base"] = draw(st.lists(st.integers(0, 300), min_size=2, max_size=5, unique=True))
+            case["fault_mix"] = [draw(st.integers(1, 5)), draw(st.integers(0, 5))]
         else:
             case["fault_base"] = [0]
             case["fault_mix"] = [0, 0]
-        case["pillar"] = draw(st.sampled_from(["global", "perpillar", "perpillar", "degenerate"]))
+        case["pillar"] = draw(st.sampled_from(["perpillar", "global", "degenerate", "perpillar"]))
         case["pillar_pad"] = draw(st.lists(st.integers(0, 50), min_size=1, max_size=4))
+        case["origin"] = [draw(st.integers(-4000, 4000)), draw(st.integers(-4000, 4000))]
     # ACTNUM: bit mask of inactive cells (bit g = global cell g); None = no ACTNUM keyword
-    am = draw(st.sampled_from(["none", "one", "quarter", "half", "half", "most", "all"]))
+    am = draw(st.sampled_from(["half", "quarter", "one", "most", "none", "half", "all"]))
     full = (1 << n) - 1
     if am == "none":
         inact = None
@@ -109,16 +112,21 @@ def case_strategy(draw, tier):
         inact = full
     case["inactive"] = None if inact is None else "%x" % inact
     # NNC records as pairs of global indices
-    case["nnc"] = draw(st.lists(st.tuples(st.integers(0, n - 1), st.integers(0, n - 1)).map(list),
-                                min_size=0, max_size=6))
-    if draw(st.booleans()):
+    # (most are mapped onto active cells so that they survive NNC's "both cells active" filter)
+    active = [g for g in range(n) if inact is None or not (inact >> g) & 1]
+    raw = draw(st.lists(st.tuples(st.integers(0, n - 1), st.integers(0, n - 1), st.integers(0, 3)),
+                        min_size=0, max_size=6))
+    case["nnc"] = [[active[u % len(active)], active[v % len(active)]] if (m and active) else [u, v]
+                   for (u, v, m) in raw]
+    if draw(st.sampled_from([True, False])):
         case["mapaxes"] = {"o": [draw(st.integers(-100000, 100000)), draw(st.integers(-100000, 100000))],
                            "rot": draw(st.integers(0, 15)), "len": draw(st.sampled_from([1, 100, 1000])),
                            "hand": draw(st.sampled_from([1, 1, -1])),
-                           "units": draw(st.sampled_from([None, "METRES", "FEET", "CM"]))}
+                           "units": draw(st.sampled_from(["FEET", None, "METRES", "CM"]))}
     else:
         case["mapaxes"] = None
-    case["formatted"] = draw(st.booleans())
+    case["actroute"] = draw(st.sampled_from(["reset", "ctor", "copy", "reset_all"]))
+    case["formatted"] = draw(st.sampled_from([True, False]))
     case["split"] = draw(st.sampled_from(["i", "j"]))
     return case
 
@@ -185,6 +193,25 @@ class Ref:
                   min(self.ys[j + 1] - self.ys[j] for j in range(self.ny)),
                   min(b - t for c in self.ztop for t, b in zip(self.ztop[c], self.zbot[c])))
         return L, ext
+
+    def vals(self, f):
+        """expected values in SI as floats (computed exactly, rounded once), memoised"""
+        if getattr(self, "_vals", None) is None:
+            vol, cor, cen, dim = [], [], [], []
+            for k in range(self.nz):
+                for j in range(self.ny):
+                    for i in range(self.nx):
+                        vol.append(float(self.volume(i, j, k)) * f ** 3)
+                        cor.append([[float(v) * f for v in p] for p in self.corners(i, j, k)])
+                        x0, x1 = self.xs[i], self.xs[i + 1]
+                        y0, y1 = self.ys[j], self.ys[j + 1]
+                        zt = sum(self.ztop[(i, j, k)]) / 4
+                        zb = sum(self.zbot[(i, j, k)]) / 4
+                        cen.append([float((x0 + x1) / 2) * f, float((y0 + y1) / 2) * f, float((zt + zb) / 2) * f])
+                        dim.append([float(x1 - x0) * f, float(y1 - y0) * f, float(zb - zt) * f])
+            self._vals = {"vol": vol, "corners": cor, "center": cen, "dims": dim,
+                          "zcorn": [float(z) * f for z in self.zcorn()]}
+        return self._vals
 
     # -------- COORD / ZCORN rendering (Eclipse ordering)
     def coord(self):
@@ -320,8 +347,9 @@ def build_ref(case):
     # corner point: affine interfaces over the rectangle, per-column fault throw, global shear
     dx = [s * v for v in case["dx"]]
     dy = [s * v for v in case["dy"]]
-    r.xs, r.ys = _cum(dx), _cum(dy)
-    Lx, Ly = r.xs[-1], r.ys[-1]
+    ox, oy = [s * v for v in case.get("origin", [0, 0])]
+    r.xs, r.ys = [ox + v for v in _cum(dx)], [oy + v for v in _cum(dy)]
+    Lx, Ly = r.xs[-1] - ox, r.ys[-1] - oy
     r.sx, r.sy = F(case["shear"][0], 16), F(case["shear"][1], 16)
     top0 = s * case["top0"]
     r.zref = top0
@@ -329,7 +357,7 @@ def build_ref(case):
     gaps = [s * g for g in case["gaps"]]
 
     def aff(c0, a, b, x, y):
-        return c0 + a * x / Lx + b * y / Ly
+        return c0 + a * (x - ox) / Lx + b * (y - oy) / Ly
     for j in range(ny):
         for i in range(nx):
             throw = s * fb[(fa * i + fc * j + (i * j) % 2) % len(fb)]
@@ -476,7 +504,7 @@ class C13(Check):
     RULE = ("Grids of (1..7)^3 cells, lengths = integers x {0.25, 0.1, 0.37, 1} deck units, unit system drawn from "
             "METRIC/FIELD/LAB/PVT-M.  Block-centred: DX|DXV, DY|DYV (full or top-layer-only arrays), DZ per cell "
             "or DZV, TOPS for the top layer / for all layers with gaps / DEPTHZ per node (faulted columns).  "
-            "Corner-point: rectilinear lattice of parallel pillars (optional global shear up to 0.75, pillars "
+            "Corner-point: rectilinear lattice (arbitrary origin) of parallel pillars (optional global shear up to 0.75, pillars "
             "given by two global points, per-pillar points or a degenerate point pair), layer interfaces affine "
             "over the model with varying thickness, per-column fault throws, gaps between layers.  ACTNUM: none / "
             "one / ~25 % / ~50 % / ~75 % / all cells inactive; 0..6 NNC records; MAPAXES (16 rotations, both "
@@ -493,8 +521,9 @@ class C13(Check):
         "EclipseGrid::save refuses the PVT-M unit system (documented throw); counted as class save:refused, not judged",
         "radial/spider grids, GDFILE, GRIDUNIT, LGRs, numerical aquifers, PINCH/MINPV are out of scope",
     ]
-    EXAMPLES = {"quick": 40, "thorough": 420}
-    MIN_EVALS = {"quick": 400, "thorough": 4000}
+    EXHAUSTIVE = False
+    EXAMPLES = {"quick": 150, "thorough": 1500}
+    MIN_EVALS = {"quick": 1500, "thorough": 10000}
     TIME_CAP = {"quick": 150, "thorough": 1100}
     LEVEL_TEXT = ("Generated-input search with an exact rational reference model of corner-point geometry.  Every "
                   "cell of every generated grid is checked: index maps against g = i + nx (j + ny k) and the rank of "
@@ -513,8 +542,53 @@ class C13(Check):
     def strategy(self, tier):
         return case_strategy(tier)
 
+    def enumerate(self, tier):
+        """systematic cross of the discrete options with fixed, non-uniform numbers"""
+        variants = [
+            ("bc", dict(top="TOPS1", xform="D", yform="V", zform="D")),
+            ("bc", dict(top="TOPS1", xform="V", yform="D1", zform="V")),
+            ("bc", dict(top="TOPSN", xform="D1", yform="D", zform="D")),
+            ("bc", dict(top="DEPTHZ", xform="V", yform="V", zform="V")),
+            ("cp", dict(shear=[0, 0], fault_base=[0], fault_mix=[0, 0], pillar="global")),
+            ("cp", dict(shear=[5, -9], fault_base=[0], fault_mix=[0, 0], pillar="perpillar")),
+            ("cp", dict(shear=[0, 0], fault_base=[0, 40, 7], fault_mix=[1, 2], pillar="degenerate")),
+            ("cp", dict(shear=[-12, 3], fault_base=[13, 0, 150], fault_mix=[2, 1], pillar="perpillar")),
+        ]
+        dims = [(3, 2, 4)] if tier == "quick" else [(3, 2, 4), (1, 1, 1), (2, 7, 3), (7, 1, 2)]
+        q = 0
+        for (nx, ny, nz) in dims:
+            n = nx * ny * nz
+            for kind, opt in variants:
+                for units in ("METRIC", "FIELD", "LAB", "PVT-M"):
+                    for fmt in (False, True):
+                        for act in ("none", "some", "all"):
+                            q += 1
+                            case = {"kind": kind, "nx": nx, "ny": ny, "nz": nz, "units": units,
+                                    "scale": SCALES[q % len(SCALES)],
+                                    "dx": [3, 7, 2, 11, 5, 13, 4][:nx], "dy": [6, 2, 9, 3, 8, 1, 10][:ny],
+                                    "top0": 1000 + 37 * (q % 50), "gaps": [0] * (nz - 1)}
+                            if kind == "bc":
+                                case.update(dz_base=[2, 5, 3], dz_mix=[1, 2, 1], top_base=[0, 6, 2, 9], top_mix=[1, 3])
+                            else:
+                                case.update(layers=[[9 + 2 * k, -3 + k, 5 - k] for k in range(nz)], surf0=[20, -14],
+                                            pillar_pad=[0, 3, 1])
+                                if nz > 1:
+                                    case["gaps"][-1] = 8
+                            case.update(opt)
+                            mask = {"none": None, "all": (1 << n) - 1,
+                                    "some": (0x5A3C96E1B7D2F048A5C3 >> (q % 16)) & ((1 << n) - 1)}[act]
+                            case["inactive"] = None if mask is None else "%x" % mask
+                            case["nnc"] = [[0, n - 1], [n // 2, n // 3], [n - 1, n // 2]]
+                            case["mapaxes"] = None if q % 3 == 0 else {
+                                "o": [1000 * (q % 7), -500 * (q % 5)], "rot": q % 16, "len": [1, 100, 1000][q % 3],
+                                "hand": 1 if q % 4 else -1, "units": [None, "METRES", "FEET", "CM"][q % 4]}
+                            case["formatted"] = fmt
+                            case["split"] = "ij"[q % 2]
+                            case["actroute"] = ["reset", "ctor", "copy", "reset_all"][q % 4]
+                            yield case
+
     def floors(self, tier):
-        return {"kind:cp": 0.3, "kind:bc": 0.2, "actnum:some-inactive": 0.4, "save:roundtrip": 0.5,
+        return {"kind:cp": 0.3, "kind:bc": 0.2, "actnum:some-inactive": 0.3, "save:roundtrip": 0.5,
                 "nnc:written": 0.25, "mapaxes:yes": 0.25, "cp:shear": 0.1, "cp:fault": 0.1,
                 "threads:compared": 0.9}
 
@@ -567,8 +641,8 @@ class C13(Check):
             exe = ctx.P.exe
             extra = []
             for t in self.THREADS:
-                extra.append((t, Probe(exe, env={"OMP_NUM_THREADS": t, "OMP_WAIT_POLICY": "passive"},
-                                       tmp_root=ctx.tmp)))
+                extra.append((t, self.buffered(Probe(exe, env={"OMP_NUM_THREADS": t, "OMP_WAIT_POLICY": "passive"},
+                                                     tmp_root=ctx.tmp))))
             ctx._c13_threads = extra
             old_close = ctx.close
 
@@ -587,8 +661,16 @@ class C13(Check):
             return e.v
         return None
 
+    @staticmethod
+    def buffered(P):
+        # replies are ~100 kB; vlib's Probe reads its pipe unbuffered (one syscall per byte)
+        if not isinstance(P.rf, io.BufferedReader):
+            P.rf = io.BufferedReader(P.p.stdout, 1 << 20)
+        return P
+
     def run(self, case, ctx):
-        P = ctx.P
+        P = self.buffered(ctx.P)
+        self._cur = ctx
         ref = build_ref(case)
         dims = (case["nx"], case["ny"], case["nz"])
         f = float(UNIT_F[case["units"]])
@@ -616,7 +698,22 @@ class C13(Check):
         obs = P.call("grid_obs", deck=deck_main, save={"path": path, "formatted": case["formatted"], "twice": False})
         g = obs["grid"]
         self.check_indices(case, dims, g, "input grid")
-        self.check_geometry(case, ref, g, tol, "input grid", full=(case["kind"] == "bc"))
+        try:
+            self.check_geometry(case, ref, g, tol, "input grid", full=(case["kind"] == "bc"))
+        except Viol as e:
+            # signature of one specific deviation: TOPS values of lower layers (given explicitly, with
+            # gaps between layers) are ignored and the layers are stacked without gaps
+            if case["kind"] == "bc" and case["top"] == "TOPSN" and any(case["gaps"]):
+                c0 = dict(case)
+                c0["gaps"] = [0] * len(case["gaps"])
+                try:
+                    self.check_geometry(c0, build_ref(c0), g, tol, "input grid", full=True)
+                    e.v["key"] = "tops-lower-layers-ignored"
+                    e.v["rule"] = ("geometry (input grid): TOPS of the lower layers is ignored (cells are stacked "
+                                   "without the gaps the deck specifies)")
+                except Viol:
+                    pass
+            raise
         require(obs["deck_units"].upper() == UNIT_NAME[case["units"]].upper(), "units: deck unit system",
                 [obs["deck_units"], case["units"]])
 
@@ -626,6 +723,30 @@ class C13(Check):
             self.check_indices(case, dims, gb, "COORD/ZCORN form")
             self.check_geometry(case, ref, gb, tol, "COORD/ZCORN form", full=True)
             self.compare_forms(g, gb, tol)
+
+        # (i) the same activity through the other public routes (constructor argument, resetACTNUM
+        # after the volume cache was filled, copy constructor, resetACTNUM())
+        route = case.get("actroute", "reset")
+        n = dims[0] * dims[1] * dims[2]
+        ina = inactive_set(case)
+        if route == "reset_all":
+            rcase = dict(case, inactive=None)
+            rdeck = deck_main
+        else:
+            rcase = case
+            rdeck = deck_text(case, cp_body(ref) if case["kind"] == "cp" else bc_body(case), dims, actnum=False)
+        gr = P.call("grid_actnum", deck=rdeck, route=route, actnum=[0 if c in ina else 1 for c in range(n)])["grid"]
+        self.check_indices(rcase, dims, gr, "activity via " + route)
+        act_r = gr["active_index"]
+        for c in range(n):
+            want = fl(g["vol_direct"][c])
+            got = [fl(gr["vol_cached"][c])] + ([fl(gr["active_volume"][act_r[c]])] if act_r[c] >= 0 else [])
+            require(all(abs(v - want) <= vol_rel * want for v in got),
+                    "indices (activity via %s): volumes after changing ACTNUM differ from the cell volumes" % route,
+                    {"cell": c, "want": want, "got": got})
+        require(len(gr["active_volume"]) == gr["nactive"], "indices: activeVolume() size after changing ACTNUM",
+                [len(gr["active_volume"]), gr["nactive"]])
+        ctx.label("actroute:" + route)
 
         # (v) thread-count independence: bitwise
         for t, tp in self.thread_probes(ctx):
@@ -732,9 +853,10 @@ class C13(Check):
         act = g["active_index"]
         av = [fl(v) for v in g["active_volume"]]
         worst = 0.0
+        V = ref.vals(f)
         for (i, j, k) in ref.cells():
             c = ref.gidx(i, j, k)
-            want = float(ref.volume(i, j, k)) * f ** 3
+            want = V["vol"][c]
             for key in ("vol_direct", "vol_ijk", "vol_cached"):
                 got = fl(g[key][c])
                 require(got > 0 and math.isfinite(got), R + "cell volume is not positive", {"cell": [i, j, k], key: got})
@@ -747,22 +869,17 @@ class C13(Check):
                 require(abs(got - want) <= vrel * want, R + "activeVolume()[activeIndex] differs from the cell volume",
                         {"cell": [i, j, k], "got": got, "want": want})
             # corner points
-            wc = ref.corners(i, j, k)
+            wc = V["corners"][c]
             gc = g["corners"][c]
             for q in range(8):
                 for d in range(3):
-                    w = float(wc[q][d]) * f
+                    w = wc[q][d]
                     got = fl(gc[q][d])
                     require(abs(got - w) <= ptol, R + "getCornerPos differs from the point on the pillar",
                             {"cell": [i, j, k], "corner": q, "dim": d, "got": got, "want": w, "tol": ptol})
             if full:
                 # block-centred cell: a box (DEPTHZ: a vertical prism with translated top/bottom)
-                x0, x1 = ref.xs[i], ref.xs[i + 1]
-                y0, y1 = ref.ys[j], ref.ys[j + 1]
-                zt = sum(ref.ztop[(i, j, k)]) / 4
-                zb = sum(ref.zbot[(i, j, k)]) / 4
-                wcen = [float((x0 + x1) / 2) * f, float((y0 + y1) / 2) * f, float((zt + zb) / 2) * f]
-                wdim = [float(x1 - x0) * f, float(y1 - y0) * f, float(zb - zt) * f]
+                wcen, wdim = V["center"][c], V["dims"][c]
                 for key in ("center", "center_ijk"):
                     got = [fl(v) for v in g[key][c]]
                     require(all(abs(a - b) <= ptol for a, b in zip(got, wcen)), R + key + " of a block-centred cell",
@@ -777,14 +894,18 @@ class C13(Check):
                 got = fl(g["thickness"][c])
                 require(abs(got - wdim[2]) <= 2 * ptol, R + "getCellThickness of a block-centred cell",
                         {"cell": [i, j, k], "got": got, "want": wdim[2]})
+        cur = getattr(self, "_cur", None)
+        if cur is not None and who == "input grid":
+            # how much of the volume tolerance the unchanged library uses (calibration evidence)
+            cur.label("voltol-used:" + ("<1%" if worst < 0.01 else "<10%" if worst < 0.1 else "<50%" if worst < 0.5 else ">=50%"))
         # ZCORN is geometry (corner depths); COORD is a parametrisation and is compared through the corners
         if "zcorn" in g:
-            wz = ref.zcorn()
+            wz = V["zcorn"]
             gz = g["zcorn"]
             require(len(gz) == len(wz), R + "ZCORN size", [len(gz), len(wz)])
             for q in range(len(wz)):
-                require(abs(fl(gz[q]) - float(wz[q]) * f) <= ptol, R + "getZCORN differs from the corner depths",
-                        {"index": q, "got": fl(gz[q]), "want": float(wz[q]) * f, "tol": ptol})
+                require(abs(fl(gz[q]) - wz[q]) <= ptol, R + "getZCORN differs from the corner depths",
+                        {"index": q, "got": fl(gz[q]), "want": wz[q], "tol": ptol})
             require(len(g["coord"]) == 6 * (ref.nx + 1) * (ref.ny + 1), R + "COORD size", len(g["coord"]))
         return worst
 
@@ -844,11 +965,13 @@ class C13(Check):
                 b = fl(lvals[q])
                 require(abs(b - v) <= rel * abs(v) + 1e-30, R + name + " of EclipseGrid(file) differs from the saved grid",
                         {"index": q, "loaded": b, "saved": v, "rel": abs(b - v) / (abs(v) + 1e-300), "tol": rel})
-        # derived geometry of the loaded grid: every coordinate moved by <= rel * L
+        # derived geometry of the loaded grid: every stored number moved by <= d = rel * L; a corner on a
+        # sheared pillar X = xt (1-t) + xb t, t = (zt-Z)/(zt-zb), |xb-xt|/|zt-zb| <= 0.75 moves by
+        # <= d + 0.75 * 4 d = 4 d; an extent by <= 8 d, a volume by <= 3 * 8 d / ext <= 8 rel cond
         L = tol["pos"] / (64 * EPS)
         cond = tol["vol"] / (2048 * EPS)
         self.check_geometry(case, ref, g1, tol, "EclipseGrid(file)", full=(case["kind"] == "bc"),
-                            rel_extra=4 * rel * cond, pos_extra=4 * rel * L)
+                            rel_extra=8 * rel * cond, pos_extra=4 * rel * L)
         # the EGrid reader's own corner computation
         for c in range(n):
             for q in range(8):
